@@ -325,6 +325,50 @@ def r19_5(ctx):
     ctx.ob('R19.5', 'forkserver.main:served-child-always-exits', ok, mn, None, 'os._exit in a finally after _serve_one')
 
 
+def r19_7(ctx):
+    ctx.rule('R19.7', 'fork launcher: the child branch installs no signal handlers (a plain child killed by signal s '
+                      'must die of s and report -s), and the sentinel descriptor has one owner: it is closed by '
+                      'Popen.close() and handed to nobody else (a second closer closes whatever reuses the number)',
+             floor=3)
+    m = ctx.model
+    la = m.func('popen_fork:Popen._launch')
+    cfg = la.cfg
+    child = q.outcome_edges(la, q.eq_text('self.pid', '0'), True)
+    q.need(child, 'popen_fork.Popen._launch: child branch (self.pid == 0) not found')
+    in_child = cfg.reach([b for (a, b, l) in child], include_src=True)
+    HANDLERS = ('signal.signal', 'reset_signals', 'signal.siginterrupt', 'signal.set_wakeup_fd', 'common.reset_signals')
+    bad = [(n, c) for (n, c) in q.calls(la, None) if n.id in in_child and
+           (la.callee(c) in HANDLERS or la.callee(c).split('.')[-1] in ('reset_signals', '_shutdown_cleanup'))]
+    ctx.ob('R19.7', '_launch:child-keeps-default-signal-dispositions', not bad, la, bad[0][1] if bad else None,
+           'the forked child installs no handler before _bootstrap' if not bad else
+           '`%s` in the child: billiard\'s handlers turn TERM/HUP/QUIT/USR1 into sys.exit(signum), so a child killed by '
+           'signal s reports +s (a normal exit) instead of -s' % ast.unparse(bad[0][1]))
+    boot = [n for (n, c) in q.calls(la, lambda t: t.endswith('._bootstrap')) if n.id in in_child]
+    ctx.ob('R19.7', '_launch:child-runs-the-bootstrap', bool(boot), la, boot[0] if boot else None,
+           'code = process_obj._bootstrap() in the child')
+    # single owner of the sentinel
+    sent = [(dn, v) for (dn, t, v) in q.assigns(la, 'self.sentinel') if v is not None]
+    q.need(sent, 'popen_fork.Popen._launch never sets self.sentinel')
+    sv = ast.unparse(sent[0][1])
+    parent = cfg.reach([b for (a, b, l) in q.outcome_edges(la, q.eq_text('self.pid', '0'), False)], include_src=True)
+    leaks = [(n, c) for (n, c) in q.calls(la, None) if n.id in parent and
+             any(isinstance(x, ast.Name) and x.id == sv for a in list(c.args) + [k.value for k in c.keywords]
+                 for x in ast.walk(a))]
+    ctx.ob('R19.7', '_launch:sentinel-has-one-owner', not leaks, la, leaks[0][1] if leaks else sent[0][0],
+           'in the parent `%s` only becomes self.sentinel' % sv if not leaks else
+           '`%s` hands the sentinel descriptor to a second owner: Popen.close() closes it, and when the other owner '
+           'closes it again the number may belong to a newer child\'s sentinel -- whose join(timeout) then sees a '
+           'ready sentinel and blocks in waitpid' % ast.unparse(leaks[0][1]))
+    cl = m.func('popen_fork:Popen.close')
+    closers = [(n, c) for (n, c) in q.calls(cl, None) if c.args and ast.unparse(c.args[0]) == 'self.sentinel']
+    closes = [c for (n, c) in closers]
+    forget = [dn for (dn, t, v) in q.assigns(cl, 'self.sentinel') if isinstance(v, ast.Constant) and v.value is None]
+    ok = bool(closes) and bool(forget) and cl.cfg.must_pass([n for (n, c) in closers], [cl.cfg.exit], forget,
+                                                             skip_labels=('x',))[0]
+    ctx.ob('R19.7', 'close:closes-once-and-forgets', ok, cl, closes[0] if closes else None,
+           'os.close(self.sentinel) and self.sentinel = None on every way out')
+
+
 def r19_6(ctx):
     ctx.rule('R19.6', 'spawn: the sentinel is the read end of a pipe whose write end is inherited by the child, and '
                       'every child end the parent closes afterwards was handed to the child first', floor=3)
@@ -374,6 +418,7 @@ def r19_6(ctx):
 
 
 def run(ctx):
+    r19_7(ctx)
     r19_5(ctx)
     r19_6(ctx)
     r19_1(ctx)
